@@ -3,7 +3,7 @@ CONSTANTS
   MaxMembers = 2
   MaxPerMember = 1
   TNs = {"try_from_ref", "owned_try_into_existing", "map"}
-  TExtras = {"-", "cp_struct", "ghosts_destruct"}
+  TExtras = {"-", "cp_struct", "cp_generic", "ghosts_destruct"}
   TParams = {"-", "ret"}
   SMenu = {"map_name", "map_expr", "map_bare", "map_idx", "try_into_name", "ghost_d", "ghost_nd", "parent0", "parentp", "parentp_idx", "child", "as_type", "repeat", "stop_repeat", "skip_repeat", "ghosts", "literal"}
   VMenu = {"map_name", "map_expr", "map_bare", "literal", "pattern", "ghost_d", "ghost_nd", "hint_s", "hint_t", "hint_u", "ghosts", "ghosts_idx", "as_type", "child", "parent0", "repeat", "stop_repeat"}
